@@ -20,7 +20,8 @@ META = dict(
          "every row time+12h, last+1d} (closed, half-open, empty, inverted, rows exactly on starting and on ending), "
          "streams {v} and {v,w}, test sets {probe}, {spike, rate_of_change}, {probe, depth-banded climatology, location}; "
          "two-context programs over every ordered pair of windows from a coarse grid; three-context programs A,B,A (the "
-         "same window in two non-adjacent places); tables with a missing (NaT) time; window bounds as ISO strings and "
+         "same window in two non-adjacent places); tables with a missing (NaT) time; a test configured on the depth column itself; one Config object run "
+         "first on data lacking a configured stream and then on complete data; window bounds as ISO strings and "
          "datetime objects; front ends: PandasStream (RangeIndex / shifted ints / DatetimeIndex), NumpyStream (ndarray / "
          "dict), XarrayStream (time as dimension coordinate / as data variable), NetcdfStream, QcConfig.run. Oracle per "
          "configured (context, stream, test): exactly one result whose subset mask equals starting<=t<ending and whose "
@@ -99,6 +100,8 @@ def mask_symptom(obs_mask, it, times):
 
 def check_case(case):
     S.install_probes()
+    if case.get("reuse"):
+        return check_reuse(case)
     tab = S.table(case["n"], case["z"], case["ll"], case.get("shuffled", False), case.get("nat", False))
     fe = case["fe"]
     contexts = case["contexts"]
@@ -276,9 +279,20 @@ def three_context_programs(n):
             yield "probe", dict(z=False, ll=False), ctxs, "str"
 
 
+def axis_stream_programs(n):
+    """a test configured on the depth column itself, next to a depth-dependent test on another stream"""
+    mz = dict(qartod=dict(gross_range_test=dict(fail_span=[0, 12], suspect_span=[0, 6]), spike_test=dict(suspect_threshold=1, fail_threshold=50)))
+    mv = dict(qartod=dict(climatology_test=dict(config=[dict(tspan=[1, 12], period="month", vspan=[2, 6], fspan=[0, 8.5], zspan=[0, 12])])))
+    for s, e in ((None, None), (S.T0 + S.DAY, None), (S.T0, S.T0 + 2 * S.DAY)):
+        yield "axis", dict(z=True, ll=False), [dict(start=s, end=e, streams={"z": mz, "v": mv})], "str"
+        yield "axis", dict(z=True, ll=False), [dict(start=s, end=e, streams={"v": mv, "z": mz})], "str"
+
+
 def tasks(tier):
-    ts = []
+    ts = [("reuse", 4, fe) for fe in ("pandas:range", "numpy:dict", "xarray:coord", "netcdf")]
     for fe in S.FRONTENDS:
+        if fe.startswith(("pandas", "xarray", "netcdf")):
+            ts.append(("axis", 4, fe))
         if fe != "qcconfig":
             ts.append(("three", 4, fe))
     for n in NS[tier]:
@@ -292,9 +306,71 @@ def tasks(tier):
     return ts
 
 
+def check_reuse(case):
+    """history: ONE Config object is first run on a table that lacks a configured stream, then on the full table"""
+    import pandas as pd
+
+    from ioos_qc.config import Config
+    from ioos_qc.streams import PandasStream
+
+    S.install_probes()
+    tab = S.table(case["n"], False, False)
+    mods = dict(qartod=dict(vprobe_test=dict(code=3), spike_test=dict(suspect_threshold=1, fail_threshold=5)))
+    ctxs = [dict(start=case["start"], end=case["end"], streams={"v": mods, "w": mods})]
+    cfgd = S.make_config(ctxs)
+    items = expected_items(tab, ctxs)
+    cfg = alpha.call(Config, cfgd)
+    if isinstance(cfg, alpha.Raised):
+        return [], False, None, 1
+    # first use: a frame without the column w (through the front end named by case["first"])
+    times = S.dt64n(tab["time"])
+    first = alpha.call(lambda: list(PandasStream(pd.DataFrame({"time": times, "v": tab["v"]})).run(cfg)) if case["first"] == "pandas" else
+                       list(__import__("ioos_qc.streams", fromlist=["NumpyStream"]).NumpyStream(inp={"v": np.array(tab["v"])}, time=times).run(cfg)))
+    # second use of the SAME Config object on the complete table
+    import ioos_qc.streams as st
+    import xarray as xr
+
+    fe = case["fe"]
+    cols = {k: np.array(tab[k], dtype="float64") for k in ("v", "w")}
+
+    def second():
+        if fe.startswith("pandas"):
+            return list(st.PandasStream(pd.DataFrame({"time": times, **cols})).run(cfg))
+        if fe.startswith("numpy"):
+            return list(st.NumpyStream(inp=cols, time=times).run(cfg))
+        ds = xr.Dataset({k: ("time", a) for k, a in cols.items()}, coords={"time": times})
+        return list((st.NetcdfStream if fe == "netcdf" else st.XarrayStream)(ds).run(cfg))
+
+    res = alpha.call(second)
+    vs = []
+    if isinstance(res, alpha.Raised):
+        return [V(f"{PROP}|config-reuse|{fe}|symptom=raises:{res.name}", f"second run of one Config object raised {res.name}: {res.msg}", None, repr(res))], True, None, 0
+    got = {}
+    for r in res:
+        for cr in r.results:
+            got[(r.stream_id, cr.test)] = (alpha.flags_of(cr.results)[0], [bool(b) for b in np.asarray(r.subset_indexes).tolist()])
+    for it in items:
+        exp_flags, _ = reference_flags(tab, it, it["stream"])
+        if isinstance(exp_flags, alpha.Raised):
+            continue
+        g = got.get((it["stream"], it["test"]))
+        if g is None:
+            vs.append(V(f"{PROP}|config-reuse|{fe}|first={case['first']}|symptom=missing-result", f"a Config object used before on data lacking stream w yields no result for ({it['stream']}, {it['test']}) on complete data", exp_flags, None))
+        elif g[0] != exp_flags or g[1] != it["mask"]:
+            vs.append(V(f"{PROP}|config-reuse|{fe}|first={case['first']}|symptom=wrong-result", f"reused Config gives different flags/rows for ({it['stream']}, {it['test']})", dict(flags=exp_flags, mask=it["mask"]), dict(flags=g[0], mask=g[1])))
+    return vs, True, tuple(sorted((k, tuple(v[0] or ())) for k, v in got.items())), 0
+
+
 def run_task(task, acc):
     kind, n, fe = task
     S.install_probes()
+    if kind == "reuse":
+        def gen2():
+            for first in ("pandas", "numpy"):
+                for s_, e_ in ((None, None), (S.T0 + S.DAY, None), (S.T0, S.T0 + 2 * S.DAY)):
+                    yield dict(reuse=True, n=n, fe=fe, first=first, start=s_, end=e_)
+        run_cases(acc, gen2(), check_case)
+        return
 
     def usable(ctxs):
         if fe in ("numpy:nd", "qcconfig"):
@@ -302,7 +378,7 @@ def run_task(task, acc):
         return True
 
     def gen():
-        progs = one_context_programs(n) if kind == "one" else (two_context_programs(n) if kind == "two" else three_context_programs(n))
+        progs = {"one": one_context_programs, "two": two_context_programs, "three": three_context_programs, "axis": axis_stream_programs}[kind](n)
         for ts_name, need, ctxs, style in progs:
             if not usable(ctxs):
                 continue
